@@ -528,6 +528,53 @@ func traceFields(o opts) error {
 				}()
 			}
 		}
+		// a fourth scenario of its own, the pattern the documentation gives: parse the struct, build
+		// the store from the names the Fields value reports (NewStore is free to sort that slice),
+		// apply.  Field order deliberately not alphabetical.
+		if h%4 == 0 {
+			type docT struct {
+				Zeta  string `setec:"zeta"`
+				Alpha []byte `setec:"alpha"`
+				Mid   string `setec:"mid"`
+				Beta  string `setec:"beta"`
+			}
+			var v docT
+			res := "ok"
+			func() {
+				defer func() {
+					if p := recover(); p != nil {
+						res = "panic:" + hx(fmt.Sprint(p))
+					}
+				}()
+				cx := context.Background()
+				m := &mapSvc{vals: map[string][]byte{}}
+				for _, n := range []string{"zeta", "alpha", "mid", "beta"} {
+					m.vals[join(n)] = []byte("value-of-" + n)
+				}
+				f, err := setec.ParseFields(&v, prefix)
+				if err != nil {
+					res = "-"
+					return
+				}
+				names := f.Secrets()
+				st4, err := setec.NewStore(cx, setec.StoreConfig{Client: m, Secrets: names, PollInterval: -1, Logf: func(string, ...any) {}})
+				if err != nil {
+					res = "-"
+					return
+				}
+				defer st4.Close()
+				if err := f.Apply(cx, st4); err != nil {
+					res = "applyerr:" + hx(err.Error())
+					return
+				}
+				if v.Zeta != "value-of-zeta" || string(v.Alpha) != "value-of-alpha" || v.Mid != "value-of-mid" || v.Beta != "value-of-beta" {
+					res = fmt.Sprintf("wrong:zeta=%s:alpha=%s:mid=%s:beta=%s", hx(v.Zeta), hb(v.Alpha), hx(v.Mid), hx(v.Beta))
+				}
+			}()
+			if res != "ok" && res != "-" && third == "ok" || third == "-" && res != "ok" && res != "-" {
+				third = "documented-pattern:" + res
+			}
+		}
 		var svcNames []string
 		for n, v := range svc.vals {
 			svcNames = append(svcNames, hx(n)+"="+hb(v))
